@@ -228,3 +228,75 @@ def h_alias(c, kind):
     if out.exc is None:
         c.ensure("same_list_object", c.get(out.value, "keylog") is keylog)
         c.ensure("list_untouched", len(keylog) == 1)
+
+
+def _mutable_reach(root, stop_ids):
+    """the mutable heap objects reachable from `root` (engine heap: lists, dicts, sets, bytearrays, instances), not descending
+    into the objects the harness itself handed in (`stop_ids`)"""
+    from pyvc.interp import Obj, SetVal
+    from pyvc.core import ByteArr
+    seen, todo = {}, [root]
+    while todo:
+        o = todo.pop()
+        if id(o) in seen or id(o) in stop_ids:
+            continue
+        if isinstance(o, (list, dict, SetVal, ByteArr, Obj)):
+            seen[id(o)] = o
+        if isinstance(o, (list, tuple)):
+            todo.extend(o)
+        elif isinstance(o, dict):
+            todo.extend(o.values())
+            todo.extend(k for k in o.keys() if isinstance(k, tuple))
+        elif isinstance(o, SetVal):
+            todo.extend(o.items)
+        elif isinstance(o, Obj):
+            todo.extend(o.attrs.values())
+    return seen
+
+
+@harness(["C04", "C03"], "demux.fresh_instances_are_separate", functions=[SE + ".__init__", QS + ".__init__", "tlexport.quic.quic_tls_parser.QuicTlsSession.__init__"],
+         cases=[("Session",), ("QuicSession",), ("QuicTlsSession",)])
+def h_separate(c, which):
+    """SEPARATION: two connections created by the real constructors share no mutable object except the run-wide ones they are
+    handed (key list, port map, port list) - no list/dict/set/bytearray/instance reachable from one session is reachable from
+    the other, from a class attribute or from a module-level name.  (A shallow copy of a module-level template holding lists
+    would make two connections' reassembly buffers one object.)"""
+    if c.native:
+        return
+    keylog, portmap, ports = [c.opaque("k0")], {}, [443]
+
+    def packet(tag):
+        return c.obj("tlexport.packet.Packet", ipv6_packet=False, ip_src=c.bytes("ip_src" + tag, length=4), ip_dst=c.bytes("ip_dst" + tag, length=4),
+                     sport=c.int("sport" + tag, 0, 65535), dport=c.int("dport" + tag, 0, 65535), ethernet_src=c.bytes("es" + tag, length=6),
+                     ethernet_dst=c.bytes("ed" + tag, length=6), seq=c.int("seq" + tag, 0, 2 ** 32 - 1), tls_data=c.bytes("data" + tag, min_len=1), timestamp=1.0)
+
+    def make(tag):
+        if which == "Session":
+            return c.new(SE, packet(tag), ports, keylog, portmap, True, False)
+        if which == "QuicSession":
+            return c.new(QS, packet(tag), ports, keylog, portmap, True)
+        return c.new("tlexport.quic.quic_tls_parser.QuicTlsSession")
+    a, b = make("A"), make("B")
+    c.ensure("no_raise", a.exc is None and b.exc is None, kind="raises")
+    if a.exc is not None or b.exc is not None:
+        return
+    shared_ok = {id(keylog), id(portmap), id(ports)}
+    ra, rb = _mutable_reach(a.value, shared_ok), _mutable_reach(b.value, shared_ok)
+    common = [o for i, o in ra.items() if i in rb]
+    c.ensure("two_instances_share_no_mutable_object", not common)
+    # nothing mutable of an instance hangs on a module-level name or a class attribute
+    glob = {}
+    for q in PER_CONNECTION_CLASSES + ["tlexport.main"]:
+        mod = c.const_of(q).module if q != "tlexport.main" else c.I.module(q)
+        for name, v in list(mod.globals.items()):
+            if type(v).__name__ in ("ClassVal", "FuncVal", "ModuleRef", "External", "Builtin", "_Unevaluated"):
+                if type(v).__name__ == "ClassVal":
+                    for av in v.attrs.values():
+                        glob.update(_mutable_reach(av, shared_ok))
+                continue
+            glob.update(_mutable_reach(v, shared_ok))
+    c.ensure("no_instance_state_on_module_or_class_level", not [o for i, o in ra.items() if i in glob])
+    c.cover("built")
+
+
+h_separate.must_cover = ["built"]
